@@ -312,7 +312,7 @@ Lemma Inv_stop s u self t s' o p : stop_if_parent_gone s u self t = (s', o, p) -
 Proof.
   intros H HI. assert (Q : qk s s').
   { revert H. unfold stop_if_parent_gone. destruct (get s u) as [pa|]; [|intros H; inversion H; subst; apply qk_refl].
-    destruct (st_ge_terminating (a_st pa)); [|intros H; inversion H; subst; apply qk_refl].
+    destruct (not_alive (a_st pa)); [|intros H; inversion H; subst; apply qk_refl].
     destruct (terminate s self t (a_graceful pa)) as [s1 o1] eqn:E. intros H; inversion H; subst. eapply qk_terminate; [apply HI|exact E]. }
   split; [eapply Inv_qk; eassumption|apply regu_qk; exact Q].
 Qed.
